@@ -180,7 +180,6 @@ fn err_val(e: &Error) -> Val {
                 io::ErrorKind::WriteZero => "writezero",
                 io::ErrorKind::TimedOut | io::ErrorKind::WouldBlock => "timeout",
                 io::ErrorKind::ConnectionRefused => "refused",
-                io::ErrorKind::ConnectionReset => "reset",
                 _ => "other",
             };
             t("io", vec![t(k, vec![])])
@@ -666,6 +665,67 @@ fn run_op(w: &mut World, op: &Val) -> Val {
                 }
                 Err(e) => t("err", vec![err_val(&e)]),
             }
+        }
+        // ---- C18: keep results alive across moves, other work and allocation churn
+        "churn" => {
+            let n = a[0].int() as usize;
+            let mut keep: Vec<Vec<u8>> = Vec::new();
+            for k in 0..n {
+                let size = 16 + (k * 7919) % 65536;
+                let v = vec![0xAAu8; size];
+                if k % 3 == 0 {
+                    keep.push(v);
+                }
+                if keep.len() > 64 {
+                    keep.clear();
+                }
+            }
+            t("ok", vec![i(keep.len() as i64)])
+        }
+        "move_results" => {
+            let how = a[0].int();
+            if let Some(rs) = w.last_fetch.take() {
+                w.last_fetch = Some(match how {
+                    0 => *Box::new(rs),
+                    1 => {
+                        let mut out = Vec::with_capacity(rs.len() + 7);
+                        for r in rs {
+                            out.push(r);
+                        }
+                        out
+                    }
+                    _ => std::thread::spawn(move || {
+                        let v = responses_view(&rs).to_text();
+                        std::hint::black_box(v);
+                        rs
+                    })
+                    .join()
+                    .expect("harness: thread"),
+                });
+            }
+            if let Some(ms) = w.last_poll.take() {
+                w.last_poll = Some(match how {
+                    0 => *Box::new(ms),
+                    1 => {
+                        let mut v = vec![ms];
+                        v.reserve(100);
+                        v.pop().unwrap()
+                    }
+                    _ => std::thread::spawn(move || {
+                        let v = messagesets_view(&ms).to_text();
+                        std::hint::black_box(v);
+                        ms
+                    })
+                    .join()
+                    .expect("harness: thread"),
+                });
+            }
+            t("ok", vec![l(vec![])])
+        }
+        "drop_results" => {
+            w.last_fetch = None;
+            w.last_poll = None;
+            t("ok", vec![l(vec![])])
         }
         "reread_fetch" => match &w.last_fetch {
             Some(rs) => t("ok", vec![responses_view(rs)]),
